@@ -38,7 +38,9 @@ def cases(tier, seed):
              "fx": float(rng.uniform(0.35, 0.65)), "fy": float(rng.uniform(0.35, 0.65)),
              "theory": "MieLens" if lens else "Mie", "lens_angle": float(rng.uniform(0.6, 1.0)), "fit_lens_angle": bool(lens and (i // 3) % 2 == 0),
              "strategy": ["nmpfit", "scipy"][i % 2], "subset": bool((i // 2) % 2), "start": ["truth", "perturbed"][(i // 4) % 2] if i >= 4 else ["truth", "perturbed"][i % 2],
-             "perturb": [float(v) for v in rng.uniform(-0.02, 0.02, 6)], "seed": [seed, "fit", i], "cost": 10}
+             "perturb": [float(v) for v in rng.uniform(-0.02, 0.02, 6)], "seed": [seed, "fit", i], "cost": 10,
+             # every fourth problem has bounds hugging the truth (+-3 %), so that the bounds handed to the minimiser matter
+             "tight_bounds": bool(i % 8 in (1, 4))}
         out.append(c)
     return out
 
@@ -70,6 +72,8 @@ def run_case(case):
     pert = dict(zip(["r", "x", "y", "z", "alpha", "lens_angle"], case["perturb"]))
     guess = {k: truth[k] * (1 + (pert[k] if case["start"] == "perturbed" else 0.0)) for k in keys}
     bounds = {"r": (0.1, 1.5), "x": (0.0, W), "y": (0.0, W), "z": (1.0, 40.0), "alpha": (0.3, 1.2), "lens_angle": (0.3, 1.3)}
+    if case.get("tight_bounds"):
+        bounds = {k: (truth[k] * 0.97, truth[k] * 1.03) for k in keys}
     pri = {k: Uniform(bounds[k][0], bounds[k][1], guess=guess[k], name=k) for k in keys}
     s = Sphere(n=case["n"], r=pri["r"], center=[pri["x"], pri["y"], pri["z"]])
     theory = (MieLens(lens_angle=pri["lens_angle"]) if fit_la else MieLens(lens_angle=case["lens_angle"])) if lens else Mie()
@@ -151,7 +155,7 @@ TOL = {"fixed_point": 1e-9, "recovery": 1e-6, "recovery_with_free_lens_angle": f
 
 def judge(case, obs):
     out = []
-    desc = {k: case.get(k) for k in ("theory", "fit_lens_angle", "strategy", "subset", "start", "n", "r", "z", "alpha", "npix")}
+    desc = {k: case.get(k) for k in ("theory", "fit_lens_angle", "tight_bounds", "strategy", "subset", "start", "n", "r", "z", "alpha", "npix")}
     for k, v in obs["resid"].items():
         if not v <= TOL[k]:
             out.append({"mech": "fit.%s.%s" % (k, case["strategy"]), "detail": "%s=%.3e > %.0e; %s got=%s truth=%s" % (k, v, TOL[k], desc, obs.get("got"), obs.get("truth"))})
